@@ -305,6 +305,7 @@ pub fn by_family(fam: &str, seed: u64) -> Scenario {
         "floodBs" => flood_bs(seed),
         "floodBc" => flood_bc(seed),
         "inlineA" => inline_a(seed),
+        "wuBurstBs" => wu_burst_bs(seed),
         _ => mix_a(seed, false),
     }
 }
@@ -883,9 +884,21 @@ pub fn goaway_bc(seed: u64) -> Scenario {
         s.reqs.push(r);
     }
     let mut steps = vec![];
+    // a third of the runs: a user ping is outstanding, its acknowledgement arrives in the same read as the GOAWAY (the
+    // connection may end before the application looks at the pong); the application pings again after the end
+    let ping_race = seed % 3 == 0;
+    let gq = if ping_race { gq + 1 } else { gq };
+    if ping_race {
+        s.peer_cfg.ack_ping = false;
+        s.env.push(EnvStep { at: "q".into(), n: (gq - 1) as u64, op: EnvOp::Ping { ep: 0 } });
+        s.env.push(EnvStep { at: "q".into(), n: (gq + 2) as u64, op: EnvOp::Ping { ep: 0 } });
+    }
     for q in 1..=5usize {
         steps.push(PeerStep::WaitQ);
         if q == gq {
+            if ping_race {
+                steps.push(PeerStep::Raw { hex: "0000080601000000003b7cdb7a0b8716b4".into() }); // PING ACK with h2's user-ping payload
+            }
             let last = pick(&mut rng, &[0u32, 1, 3, 5, 7, 0x7fff_ffff]);
             let code = if rng.gen_bool(0.5) { 0 } else { pick(&mut rng, &CODES) };
             steps.push(PeerStep::Goaway { last, code, dbg: pick(&mut rng, &[0usize, 5, 100]) });
@@ -900,6 +913,15 @@ pub fn goaway_bc(seed: u64) -> Scenario {
     steps.push(PeerStep::WaitQ);
     if rng.gen_bool(0.5) {
         steps.push(PeerStep::Eof);
+    }
+    if ping_race && rng.gen_bool(0.5) {
+        // ... or the transport simply ends right behind the acknowledgement
+        let i = steps.iter().position(|p| matches!(p, PeerStep::Raw { .. })).unwrap();
+        steps.truncate(i + 1);
+        steps.push(PeerStep::Eof);
+        steps.push(PeerStep::WaitQ);
+        steps.push(PeerStep::WaitQ);
+        steps.push(PeerStep::WaitQ);
     }
     s.peer = steps;
     s.drop_sr_when_done = rng.gen_bool(0.5);
@@ -1527,5 +1549,54 @@ pub fn inline_a(seed: u64) -> Scenario {
         s.inline.push(InlineStep { min_q: 6, ep: 0, at: pick(&mut rng, &["read", "read", "write", "flush"]).to_string(), nth: 0, act: InlineAct::DropSr });
         s.inline.push(InlineStep { min_q: 0, ep: 0, at: "q".into(), nth: 8, act: InlineAct::DropSr });
     }
+    s
+}
+
+// ---------------------------------------------------------------------------
+// C03: many streams owe a WINDOW_UPDATE at the same moment, while the endpoint's transport is blocked and its write
+// buffer is nearly full (large response heads staged): the updates that do not fit must still go out later.
+// Real server, scripted client. Every stream's (small) window is exhausted exactly, the application reads everything,
+// then - writes blocked, buffer filled - releases everything on every stream at one quiescence; then writes resume.
+pub fn wu_burst_bs(seed: u64) -> Scenario {
+    let mut rng = StdRng::seed_from_u64(seed ^ 0x3B_0257);
+    let mut s = Scenario::default();
+    s.name = format!("wuBurstBs-{}", seed);
+    s.mode = "Bs".into();
+    s.sched.seed = seed;
+    s.aims = vec!["C03".into()];
+    let iws = pick(&mut rng, &[50u32, 100, 200]);
+    s.scfg.iws = Some(iws);
+    s.peer_cfg.ack_settings = true;
+    s.peer_cfg.ack_ping = true;
+    s.peer_cfg.grant = "none".into();
+    s.peer_cfg.respond = false;
+    s.io.deliver = "all".into();
+    let n = rng.gen_range(40..130u32);
+    let big = rng.gen_range(2..5usize);       // streams answered with a large response head while writes are blocked
+    let hid = pick(&mut rng, &[6usize, 6, 12, 16, 5]);
+    let hdr = |sid: u32| PeerStep::Headers { sid, hid: 0, fields: vec![], eos: false, frag: 0, huff: false, status: 0, req: true, method: "POST".into(), tag: sid };
+    let mut steps = vec![];
+    for i in 0..n {
+        steps.push(hdr(1 + 2 * i));
+    }
+    for i in 0..n {
+        steps.push(PeerStep::Data { sid: 1 + 2 * i, n: iws as usize, eos: false, pad: None });
+    }
+    for _ in 0..8 {
+        steps.push(PeerStep::WaitQ);
+    }
+    s.peer = steps;
+    for i in 0..n as usize {
+        let read = ReadPol { script: vec![RecvOp::WaitQ { k: 1 }, RecvOp::PollData, RecvOp::PollData, RecvOp::WaitQ { k: 3 }, RecvOp::Release { n: iws as usize }, RecvOp::WaitQ { k: 9 }], ..ReadPol::default() };   // (the handle stays: the stream could still be read)
+        let ops = if i < big {
+            vec![SendOp::WaitQ { k: 2 }, SendOp::Response { status: 200, hid, eos: false }, SendOp::WaitQ { k: 9 }]
+        } else {
+            vec![SendOp::WaitQ { k: 9 }]
+        };
+        s.srv.push(SrvProg { ops, read, note: String::new() });
+    }
+    // q1: everything received and read; writes blocked from then on; q2: large heads staged; q3: all releases; q5: writes resume
+    s.env.push(EnvStep { at: "q".into(), n: 1, op: EnvOp::Budget { ep: 1, n: Some(0) } });
+    s.env.push(EnvStep { at: "q".into(), n: rng.gen_range(4..6), op: EnvOp::Budget { ep: 1, n: None } });
     s
 }
